@@ -5,6 +5,7 @@
 package main
 
 import (
+	"strings"
 	"fmt"
 
 	"tags.cncf.io/container-device-interface/pkg/parser"
@@ -173,10 +174,10 @@ func main() {
 	if r.Thorough() {
 		L, K = 7, 3
 	}
-	r.Rule = fmt.Sprintf("every byte string of length 0..%d over the %d-symbol alphabet %q (one representative per class the validators distinguish) "+
+	r.Rule = fmt.Sprintf("every byte string of length 0..%d over the %d-symbol alphabet %q (one representative per class the validators distinguish) and every string of up to %d characters over 18 whole characters (5 ASCII representatives, 13 non-ASCII characters: Unicode letters/digits, low byte or low 7 bits an ASCII letter/digit, case-folding look-alikes, non-BMP, invisible) "+
 		"through ParseQualifiedName/IsQualifiedName/ParseDevice/Validate*Name; every (vendor,class,name) with each part any string of length 1..%d over %q "+
 		"through QualifiedName+ParseQualifiedName; oracle = hand-written grammar. Cases are distinct by construction (mixed-radix index); "+
-		"non-trivial = the string contains both separators (the grammar gets past the split) or is a composed triple", L, len(alphabet), alphabet, K, partAlphabet)
+		"non-trivial = the string contains both separators (the grammar gets past the split) or is a composed triple", L, len(alphabet), alphabet, map[bool]int{false: 5, true: 6}[r.Thorough()], K, partAlphabet)
 	r.Assumptions = []string{"bytes outside the alphabet behave like their class representative (letter, digit, each punctuation, control, UTF-8 lead/continuation, invalid byte)",
 		fmt.Sprintf("strings longer than %d / parts longer than %d are not enumerated", L, K)}
 	for n := 0; n <= L && !r.Expired(); n++ {
@@ -188,6 +189,30 @@ func main() {
 			l.Record(res, func() any { return fmt.Sprintf("string %q -> %s", s, res.Outcome) })
 		})
 	}
+	// strings over whole characters: ASCII class representatives and non-ASCII characters picked
+	// for what a careless character test does with them (Unicode letters and digits, characters
+	// whose low byte or low 7 bits are an ASCII letter or digit, case-folding look-alikes,
+	// non-BMP, invisible characters)
+	tokens := []string{"a", "0", "/", "=", "-", "\u00e9", "\u0430", "\u0141", "\u0661", "\u212a", "\u017f", "\uff21", "\U0001d7d8", "\u0130", "\u200b", "\ufeff", "\u0085", "\u00df"}
+	TL := 5
+	if r.Thorough() {
+		TL = 6
+	}
+	for n := 1; n <= TL && !r.Expired(); n++ {
+		total := pow(len(tokens), n)
+		r.ParallelL(total, func(i int64, l *hx.Local) {
+			var sb strings.Builder
+			x := i
+			for k := 0; k < n; k++ {
+				sb.WriteString(tokens[x%int64(len(tokens))])
+				x /= int64(len(tokens))
+			}
+			s := sb.String()
+			res := evalString(s)
+			l.Record(res, func() any { return fmt.Sprintf("string %q -> %s", s, res.Outcome) })
+		})
+	}
+	r.Extra["character_tokens"] = fmt.Sprintf("%q up to %d characters", tokens, TL)
 	parts := allUpTo(partAlphabet, K)
 	np := int64(len(parts))
 	r.ParallelL(np*np*np, func(i int64, l *hx.Local) {
